@@ -39,12 +39,15 @@ var zzDriverScripts = []string{
 	"this is ( not a script",
 	"print(Name, \"\\n\"); return len(Tags) == 2;",
 	"return Tags[1] ~= /^b/;",
+	"return \"100%\";",
+	"return [Name, \"%d\", Count % 4];",
 }
 
 var zzDriverDocs = []string{
 	"",                       // no -json flag
 	"{\"Name\": \"steve\", \"Count\": 5, \"Tags\": [\"a\", \"b\"], \"Meta\": {\"k\": 1.5, \"n\": null}}",
 	"{\"Name\": \"\", \"Count\": -2, \"Tags\": [], \"Meta\": {}}",
+	"{\"Name\": \"50%d off %\", \"Count\": 7, \"Tags\": [\"a%s\", \"%v\"], \"Meta\": {\"k%\": 2}}",
 	"{\"Name\": 3",           // invalid JSON
 	"[1, 2]",                 // valid JSON, wrong shape
 	"<unreadable>",           // the file does not exist
